@@ -102,7 +102,7 @@ theorem rel_ne {x y : Key} (h : k.rel x y = true) : x ≠ y := by
 theorem guardVal_eq_ordVal (hp : k.proper = true) (a : α) : k.guardVal a = k.ordVal a := by
   unfold proper at hp
   unfold guardVal ordVal
-  cases hg : k.guard <;> cases hx : k.xf <;> simp [hg, hx, Xf.app, ordVal] at hp ⊢
+  cases hg : k.guard <;> cases hx : k.xf <;> simp [hg, hx, Xf.app] at hp ⊢
 end KeyDesc
 
 /-! ### `lessOf` on a proper list: one step -/
@@ -173,7 +173,7 @@ theorem lessOf_negTrans {α : Type} (ks : List (KeyDesc α)) (hp : AllProper ks)
     by_cases hba : k.ordVal b = k.ordVal a
     · by_cases hcb : k.ordVal c = k.ordVal b
       · have hca : k.ordVal c = k.ordVal a := hcb.trans hba
-        simp only [hba, hcb, hca, if_true] at h1 h2 ⊢
+        simp only [hba, hcb, if_true] at h1 h2 ⊢
         exact ih hks h1 h2
       · simp only [hba, if_true] at h1
         rw [← hba]; simp only [hcb, if_false] at h2 ⊢; exact h2
